@@ -166,7 +166,7 @@ func fieldWriteSites(p *Prog, key string) (out []struct {
 				}
 			case *ast.KeyValueExpr:
 				if id, ok := x.Key.(*ast.Ident); ok {
-					if v, ok := info.ObjectOf(id).(*types.Var); ok && v.IsField() {
+					if v, ok := objOf(info, id).(*types.Var); ok && v.IsField() {
 
 						parts := strings.Split(key, ".")
 						if v.Name() == parts[len(parts)-1] && v.Pkg() != nil && strings.HasPrefix(key, short(v.Pkg().Path())+".") {
@@ -529,7 +529,7 @@ func (s *Scope) derivesFromReadTGData(e ast.Expr, depth int) (bool, string) {
 	}
 	switch x := e.(type) {
 	case *ast.Ident:
-		o := s.Info.ObjectOf(x)
+		o := objOf(s.Info, x)
 		if o == nil {
 			return false, "unresolved identifier"
 		}
